@@ -236,6 +236,15 @@ where
     v
 }
 
+thread_local! {
+    /// which generator thread this is ("label#index"): its case list is a pure function of (seed, property, tag)
+    static RUN_TAG: std::cell::RefCell<Option<String>> = const { std::cell::RefCell::new(None) };
+}
+/// VCHECK_ONLY=label#index restricts a run to the cases of that generator thread (enumerations are skipped)
+pub fn only_tag() -> Option<String> {
+    std::env::var("VCHECK_ONLY").ok().filter(|s| !s.is_empty())
+}
+
 /// a logger that formats every record, as a real one would, and drops it
 struct SinkLogger;
 static SINK: SinkLogger = SinkLogger;
@@ -289,7 +298,15 @@ where
             let results = &results;
             let stop = &stop;
             let seed = mix64(ctx.seed ^ hash_str(&ctx.id) ^ hash_str(label).rotate_left(17) ^ ((t as u64) << 48));
+            // a supervised re-run may be restricted to the case list of one generator thread (see main.rs: supervise)
+            let tag = format!("{label}#{t}");
+            if let Some(only) = only_tag() {
+                if only != tag {
+                    continue;
+                }
+            }
             scope.spawn(move || {
+                RUN_TAG.with(|r| *r.borrow_mut() = Some(tag));
                 let mut local = Stats::new();
                 // safety net: a panic escaping a checker (e.g. the library panicking inside a generator's
                 // feedback call) is reported as a violation of this property instead of killing the process
@@ -379,6 +396,9 @@ pub fn par_sweep<W>(ctx: &Ctx, st: &mut Stats, total: u64, work: W) -> Vec<Viola
 where
     W: Fn(u64, u64, &mut Stats) -> Option<Violation> + Sync,
 {
+    if only_tag().is_some() {
+        return Vec::new();
+    }
     let threads = ctx.threads.max(1) as u64;
     // many chunks so that uneven costs balance
     let nchunks = (threads * 16).min(total.max(1));
@@ -515,13 +535,45 @@ pub fn journal(case: impl FnOnce() -> Value) {
             *j = std::fs::File::create(format!("{dir}/j-{n}.json")).ok();
         }
         if let Some(f) = j.as_mut() {
-            let body = case().to_string();
+            // the last JOURNAL_DEPTH cases of this thread, oldest first (a crash may need the calls before it)
+            // also the last JOURNAL_LARGE real-size cases (they are rare, and size-gated state - scratch buffers, tables -
+            // only changes on them), merged in execution order
+            let body = JOURNAL_RING.with(|r| {
+                let mut r = r.borrow_mut();
+                let v = case();
+                let large = v.get("seeded").is_some();
+                let n = r.2;
+                r.2 += 1;
+                let txt = v.to_string();
+                if large {
+                    if r.1.len() >= JOURNAL_LARGE {
+                        r.1.remove(0);
+                    }
+                    r.1.push((n, txt.clone()));
+                }
+                if r.0.len() >= JOURNAL_DEPTH {
+                    r.0.remove(0);
+                }
+                r.0.push((n, txt));
+                let first_recent = r.0[0].0;
+                let head = RUN_TAG.with(|t| t.borrow().as_ref().map(|t| json!({"journal_of": t}).to_string()));
+                let mut all: Vec<&str> = head.iter().map(|h| h.as_str()).collect();
+                all.extend(r.1.iter().filter(|(k, _)| *k < first_recent).map(|(_, t)| t.as_str()));
+                all.extend(r.0.iter().map(|(_, t)| t.as_str()));
+                format!("[{}]", all.join(","))
+            });
             let _ = f.seek(SeekFrom::Start(0));
             let _ = f.set_len(0);
             let _ = f.write_all(body.as_bytes());
             let _ = f.flush();
         }
     });
+}
+pub const JOURNAL_DEPTH: usize = 24;
+pub const JOURNAL_LARGE: usize = 64;
+type Ring = (Vec<(u64, String)>, Vec<(u64, String)>, u64);
+thread_local! {
+    static JOURNAL_RING: std::cell::RefCell<Ring> = const { std::cell::RefCell::new((Vec::new(), Vec::new(), 0)) };
 }
 
 /// classification of a caught panic message
